@@ -1,6 +1,6 @@
 """C02 system composition: theorems on the system model + correspondence on generated
 libraries of components and systems in a directory tree + the denotation-level oracle."""
-import os, random, shutil
+import os, random, re, shutil
 import framework as fw
 import pepper
 
@@ -86,6 +86,9 @@ def run(tier, seed, build):
     rng = random.Random(seed * 149 + 2)
     n = 400 if tier == "quick" else 4000
     cases = [gen_case(rng) for _ in range(n)]
+    for i, c in enumerate(cases):      # every sixth library: in the component statements of its .sys files a blank separates a signal from its star (`x *`)
+        if i % 6 == 4:
+            c["files"] = {fn: ("\n".join(re.sub(r"(\w)\*", r"\1 *", l) if re.match(r"\s*component\b", l) else l for l in t.split("\n")) if fn.endswith(".sys") else t) for fn, t in c["files"].items()}
     impl = fw.run_impl("props.c02", "impl_case", [{k: v for k, v in c.items() if not k.startswith("_")} for c in cases], per_case_timeout=60)
     wrapped = [w for w in (wrap_argument(rng, c) for c in cases) if w is not None][: max(10, n // 10)]
     wimpl = fw.run_impl("props.c02", "impl_case", [{k: v for k, v in w.items() if not k.startswith("_")} for w in wrapped], per_case_timeout=60)
